@@ -134,8 +134,13 @@ Init == /\ live = [h \in Holders |-> Boot]
         /\ last = [h \in Holders |-> Boot]
         /\ op = [h |-> "g", act |-> "boot", out |-> "boot"]
 
+\* The same pair of holder states is reached with several values of the
+\* history variables; its outgoing edges are printed from one or two of them
+\* only (the orchestrator removes duplicates and checks that none is missing).
+Canon == \/ op.act = "boot"
+         \/ op.act = "put" /\ op.out = "ok"
 Emit(h, act, doc, o) ==
-    PrintT(<<"@@V", ToJson([k |-> "edge", h |-> h, act |-> act, src |-> LiveJ(live), doc |-> DocJ(doc),
+    Canon => PrintT(<<"@@V", ToJson([k |-> "edge", h |-> h, act |-> act, src |-> LiveJ(live), doc |-> DocJ(doc),
                             out |-> o, dst |-> LiveJ(live')])>>)
 
 \* A document offered to holder h, through the update API (act = "put") or as
